@@ -259,9 +259,9 @@ theorem ackTo_runCb (s : Stack) (cb : Cb) (hi : AckTo base ok s) : AckTo base ok
     · split
       · exact hi
       · split
-        · exact ackTo_stepOffer _ _ _ _ (ackTo_frame (qpi_cancelTimer_sleep _ _) hi)
-        · exact ackTo_frame ((qpi_stepFind _ _ _).trans (qpi_cancelTimer_sleep _ _)) hi
-        · exact ackTo_frame ((qpi_stepSubscribe _ _ _).trans (qpi_cancelTimer_sleep _ _)) hi
+        · exact ackTo_stepOffer _ _ _ _ (ackTo_frame (qpi_cancelTimer_sleep _ _ _) hi)
+        · exact ackTo_frame ((qpi_stepFind _ _ _).trans (qpi_cancelTimer_sleep _ _ _)) hi
+        · exact ackTo_frame ((qpi_stepSubscribe _ _ _).trans (qpi_cancelTimer_sleep _ _ _)) hi
 
 theorem ackTo_loop (s : Stack) (l : Loop Cb) (hi : AckTo base ok s) : AckTo base ok ({ s with loop := l } : Stack) := hi
 
